@@ -8,12 +8,19 @@ CONSTANTS
   MaxSize = 2
   ReaderStops = TRUE
   TrackUsed = TRUE
+  ConnEmptyEOFQuirk = TRUE
   MaxMsgs = 2
   MaxAdv = 1
   Sizes = {0, 1, 2}
   Vals = {0, 1}
   WDirs = {"ab", "ba"}
+  Fine = FALSE
+  CSizes = {}
+  Wants = {}
+  Hold = FALSE
 INVARIANTS TypeOK HsSound HsComplete HsWrongKey HsOrder KeysAgree InSync DeliveredPrefix DeliveredGenuine
-  ReadOkIffIntact ReadYieldsNext PristinePipe FlushCount NoNonceReuse DistinctSendKeys
+  ReadOkIffIntact CLoadOkIffIntact ReadYieldsNext PristinePipe FlushCount NoNonceReuse DistinctSendKeys
+  HeldAreDelivered HalfPcOK ConnAccounting
+PROPERTY HalvesDisjoint
 VIEW MCView
 CHECK_DEADLOCK FALSE
